@@ -23,6 +23,9 @@ theorem aheadOf_eq (fn : Nat) : aheadOf fn = (fn + 2) % 4294967296 := by
 /-- the frame number `sched_gsmtime_execute(fn)` compares the events with -/
 def target (fn : Nat) : Nat := (fn % 4294967296 + 2) % 4294967296
 
+theorem target_small (fn : Nat) (h : fn + 2 < 4294967296) : target fn = fn + 2 := by
+  simp only [target]; omega
+
 theorem aheadOf_u32 (fn : Nat) : aheadOf (u32 fn) = target fn := by
   rw [aheadOf_eq]; rfl
 
@@ -613,6 +616,15 @@ theorem runFrames_cons_ok (env : Env) (st st' : Sys) (fr : Frame) (frs : List Fr
   simp only [pure, Except.pure, Except.ok.injEq, Prod.mk.injEq] at h4
   exact ⟨st1, o, os, h1, by rw [h3, h4.1], h4.2.symm⟩
 
+theorem runFrames_length (env : Env) : ∀ (frs : List Frame) (st st' : Sys) (outs : List FrameOut),
+    runFrames env st frs = .ok (st', outs) → outs.length = frs.length
+  | [], st, st', outs, h => by
+    simp only [runFrames, Except.ok.injEq, Prod.mk.injEq] at h
+    rw [← h.2]; rfl
+  | fr :: frs, st, st', outs, h => by
+    obtain ⟨st1, o, os, _, h2, h3⟩ := runFrames_cons_ok env st st' fr frs outs h
+    rw [h3]; simp [runFrames_length env frs st1 st' os h2]
+
 /-! ### following one event -/
 
 /-- operations that are neither `sched_gsmtime_execute` nor `sched_gsmtime_reset` -/
@@ -764,5 +776,72 @@ theorem frame_hit (env : Env) (st st' : Sys) (fr : Frame) (o : FrameOut) (ev : E
   have := hc.filter_slot ev.slot
   rw [m1] at this
   exact this.singleton
+
+/-! ### a frame interrupt is the history `frameOps` -/
+
+theorem srun_append (env : Env) : ∀ (a b : List SOp) (st : Sys),
+    srun env st (a ++ b) =
+      match srun env st a with
+      | .error f => .error f
+      | .ok (st1, o1) =>
+        match srun env st1 b with
+        | .error f => .error f
+        | .ok (st2, o2) => .ok (st2, o1 ++ o2)
+  | [], b, st => by
+    simp only [List.nil_append, srun]
+    cases srun env st b with
+    | error f => rfl
+    | ok r => rfl
+  | op :: a, b, st => by
+    simp only [List.cons_append, srun, bind, Except.bind]
+    cases sstep env st op with
+    | error f => rfl
+    | ok r =>
+      obtain ⟨st1, o⟩ := r
+      simp only []
+      rw [srun_append env a b st1]
+      cases srun env st1 a with
+      | error f => rfl
+      | ok r2 =>
+        obtain ⟨st2, o1⟩ := r2
+        simp only [pure, Except.pure]
+        cases srun env st2 b with
+        | error f => rfl
+        | ok r3 => rfl
+
+/-- the outputs of a frame interrupt as the outputs of its operations, in order -/
+def flatOut (o : FrameOut) : List SOut :=
+  o.pre ++ [⟨o.exec.rc, o.exec.ran, []⟩] ++ o.mid ++ [⟨o.num, [], o.calls⟩, ⟨0, [], []⟩]
+
+/-- `l1Sync` is the history `frameOps` (the form in which frames are run on the real code) -/
+theorem l1Sync_eq_srun (env : Env) (st : Sys) (fr : Frame) :
+    srun env st (frameOps fr) =
+      match l1Sync env st fr with
+      | .error f => .error f
+      | .ok (st', o) => .ok (st', flatOut o) := by
+  simp only [frameOps, l1Sync, List.append_assoc, srun_append, bind, Except.bind]
+  cases srun env st fr.pre with
+  | error f => rfl
+  | ok r1 =>
+    obtain ⟨st1, pre⟩ := r1
+    simp only [List.cons_append, List.nil_append, srun, sstep, bind, Except.bind]
+    cases TdmaSched.step env st1.s .execute with
+    | error f => rfl
+    | ok r2 =>
+      obtain ⟨s2, ex⟩ := r2
+      simp only [pure, Except.pure, srun_append]
+      cases srun env ⟨st1.g, s2⟩ fr.mid with
+      | error f => rfl
+      | ok r3 =>
+        obtain ⟨st3, mid⟩ := r3
+        simp only [srun, sstep, bind, Except.bind]
+        cases execute st3.g st3.s fr.fn with
+        | error f => rfl
+        | ok r4 =>
+          obtain ⟨g4, s4, num, cs⟩ := r4
+          simp only [pure, Except.pure, TdmaSched.step, bind, Except.bind]
+          cases TdmaSched.advance s4 with
+          | error f => rfl
+          | ok s5 => simp [flatOut]
 
 end OsmoVerif.SchedGsmtime
